@@ -7,7 +7,7 @@ from pyvc.verify import verify_function
 prog = Program(); reg = Registry(prog)
 pats = sys.argv[1:]
 for q in reg.contracts:
-    if pats and not any(p in q for p in pats): continue
+    if pats and not any((p in q) if not p.endswith('$') else q.endswith(p[:-1]) for p in pats): continue
     c = reg.contracts[q]
     if c.trusted or c.abstract: continue
     rep = verify_function(prog, reg, q)
